@@ -54,11 +54,39 @@ func TestChild(t *testing.T) { locksim.ChildMain(t, plan) }
 // keeps the lock for two leases while a Locker of another provider tries (so does the last holder when the
 // hand-off budget is used up). The verdict is the behavioural one: the other Locker must not get the lock.
 func TestChildStorm(t *testing.T) {
-	idx, _, _, ok := shard.Child()
+	idx, _, part, ok := shard.Child()
 	if !ok {
 		t.Skip("not a shard child")
 	}
 	res := shard.NewResult()
+	if part == "slow" {
+		// a storage that answers the renewals slowly (inside half a lease). The renewal callbacks block a worker of
+		// the 10-worker timer pool for a good part of the time: a process of its own, so that no other scenario's
+		// timers depend on that pool
+		L := []time.Duration{time.Second, 600 * time.Millisecond, 800 * time.Millisecond}[idx%3]
+		before, after := []time.Duration{0, L / 6, L / 8}[idx%3], []time.Duration{3 * L / 10, 0, L / 8}[idx%3]
+		for attempt := 1; ; attempt++ {
+			o := locktap.SlowStorageTenure(L, before, after)
+			res.Maxes["canary_worst_stall_us"] = max(res.Maxes["canary_worst_stall_us"], int64(o.Stall/time.Microsecond))
+			if o.Sig != "" && o.Stall > L/16 {
+				if attempt < 3 {
+					res.Counters["takeover_repeated_because_of_a_stall"]++
+					continue
+				}
+				res.Inconcl = append(res.Inconcl, fmt.Sprintf("slow-storage-tenure: %s (canary stall %v)", o.What, o.Stall))
+				break
+			}
+			res.Evals++
+			res.Counters["slow_storage_tenure_scenarios"]++
+			res.Classes = append(res.Classes, fmt.Sprint("slow-storage-tenure", L, before, after))
+			if o.Sig != "" {
+				res.Violation("lock/two-holders", "real clock: "+o.What, map[string]any{"mode": "slow-storage-tenure", "lease": L.String(), "before": before.String(), "after": after.String()})
+			}
+			break
+		}
+		shard.Emit(res)
+		return
+	}
 	budget := int64(150_000)
 	if os.Getenv("VERIF_TIER") == "thorough" {
 		budget = 3_000_000
@@ -461,7 +489,7 @@ func staleRenewal(L time.Duration, n int32) (sig, what string, stall time.Durati
 func TestCheck(t *testing.T) {
 	run := report.New(prop, "fault_enumeration")
 	defer run.Finish(t)
-	run.Rule("controlled: scenarios of 2-5 workers (distinct Lockers of 1-3 providers and goroutines sharing a Locker) running programs over {Lock, TryLock, LockWithCtx} inside a synctest bubble; every kvs.Storage call of the lock code is a gate, the scheduler picks one enabled action per step (release a gate normally / as 'request lost' / as 'reply lost' with up to 2 faults, cancel an attempt before or during the call, leave a critical section, expire an ownerless record) - random and PCT schedules plus exhaustive DFS of 27 two-worker configurations with <=1 fault; monitor: number of callers between acquisition return and Unlock call never exceeds 1. take-over: on the real clock with a 300/400 ms lease (hook) a caller waits 1.25-2 leases behind a holder, takes over and holds for 3 leases against a TryLock-spinning third Locker (canary-guarded); stale renewal: the answer of the previous holder's n-th renewal arrives after it unlocked and another caller acquired. unlock vs failed renewal: A's renewal is answered with an error (request lost) while A is unlocking, then B acquires and a third Locker spins. slow storage: the holder's storage answers every renewal slowly but inside half a lease (a caller whose context ends meanwhile gets the context's error), 4 leases against a spinning Locker. hand-off storm (own process): goroutines sharing one Locker hand the lock over 150 000 (3 000 000) times; a holder found without a pending lease timer right after a hand-off (hook), or the last one, keeps the lock for two leases against another provider's Locker. free-running: same monitor under real scheduling with the race detector on inmem and Redis(miniredis). distinct = distinct (configuration, action trace) pairs executed in the controlled part")
+	run.Rule("controlled: scenarios of 2-5 workers (distinct Lockers of 1-3 providers and goroutines sharing a Locker) running programs over {Lock, TryLock, LockWithCtx} inside a synctest bubble; every kvs.Storage call of the lock code is a gate, the scheduler picks one enabled action per step (release a gate normally / as 'request lost' / as 'reply lost' with up to 2 faults, cancel an attempt before or during the call, leave a critical section, expire an ownerless record) - random and PCT schedules plus exhaustive DFS of 27 two-worker configurations with <=1 fault; monitor: number of callers between acquisition return and Unlock call never exceeds 1. take-over: on the real clock with a 300/400 ms lease (hook) a caller waits 1.25-2 leases behind a holder, takes over and holds for 3 leases against a TryLock-spinning third Locker (canary-guarded); stale renewal: the answer of the previous holder's n-th renewal arrives after it unlocked and another caller acquired. unlock vs failed renewal: A's renewal is answered with an error (request lost) while A is unlocking, then B acquires and a third Locker spins. slow storage (own processes): the holder's storage answers every renewal slowly but inside half a lease (a caller whose context ends meanwhile gets the context's error), 4 leases against a spinning Locker. hand-off storm (own process): goroutines sharing one Locker hand the lock over 150 000 (3 000 000) times; a holder found without a pending lease timer right after a hand-off (hook), or the last one, keeps the lock for two leases against another provider's Locker. free-running: same monitor under real scheduling with the race detector on inmem and Redis(miniredis). distinct = distinct (configuration, action trace) pairs executed in the controlled part")
 	run.Assume("controlled part: frozen virtual time, so leases never expire under a live holder (the property's premise); storage operations are atomic steps there - their internal atomicity is what the free-running part and C02 look at")
 	run.Assume("an ownerless lock record (left by an injected lost reply / lost Delete) disappears only through the explicit 'expire' action, which models lease expiry")
 
@@ -477,6 +505,13 @@ func TestCheck(t *testing.T) {
 	go func() { // hand-off storms, one process each (they run beside everything below)
 		defer swg.Done()
 		for c := range shard.Run(run, "TestChildStorm", "storm", run.Pick(4, 8), 30*time.Minute, "VERIF_TIER="+map[bool]string{true: "thorough", false: "quick"}[run.Thorough()]) {
+			run.DistinctStr(c)
+		}
+	}()
+	swg.Add(1)
+	go func() { // slow-storage tenures, one process each
+		defer swg.Done()
+		for c := range shard.Run(run, "TestChildStorm", "slow", 3, 30*time.Minute) {
 			run.DistinctStr(c)
 		}
 	}()
@@ -563,35 +598,6 @@ func TestCheck(t *testing.T) {
 				run.DistinctStr(fmt.Sprint("unlock-vs-failed-renewal", L, 1+i%2))
 				if o.Sig != "" {
 					run.Violation("lock/two-holders", "real clock: "+o.What, map[string]any{"mode": "unlock-vs-failed-renewal", "lease": L.String(), "renewal": 1 + i%2})
-				}
-				return
-			}
-		}(i)
-	}
-	// a storage that answers the renewals slowly (inside half a lease). Each scenario blocks a worker of the timer
-	// pool for a good part of the time: only a few of them run in this process
-	for i := 0; i < 3; i++ {
-		twg.Add(1)
-		go func(i int) {
-			defer twg.Done()
-			L := []time.Duration{time.Second, 600 * time.Millisecond, 800 * time.Millisecond}[i]
-			before, after := []time.Duration{0, L / 6, L / 8}[i], []time.Duration{3 * L / 10, 0, L / 8}[i]
-			for attempt := 1; ; attempt++ {
-				o := locktap.SlowStorageTenure(L, before, after)
-				run.Max("canary_worst_stall_us", int64(o.Stall/time.Microsecond))
-				if o.Sig != "" && o.Stall > L/16 {
-					if attempt < 3 {
-						run.Add("takeover_repeated_because_of_a_stall", 1)
-						continue
-					}
-					run.Inconclusive(fmt.Sprintf("slow-storage-tenure: %s (canary stall %v)", o.What, o.Stall))
-					return
-				}
-				run.Eval(1)
-				run.Add("slow_storage_tenure_scenarios", 1)
-				run.DistinctStr(fmt.Sprint("slow-storage-tenure", L, before, after))
-				if o.Sig != "" {
-					run.Violation("lock/two-holders", "real clock: "+o.What, map[string]any{"mode": "slow-storage-tenure", "lease": L.String(), "before": before.String(), "after": after.String()})
 				}
 				return
 			}
